@@ -19,7 +19,7 @@ import (
 
 // Codec describes one frame-codec configuration (JSON-serialisable).
 type Codec struct {
-	Kind   string `json:"kind"` // lf | prep | varint | delim | fixed
+	Kind   string `json:"kind"` // lf | prep | varint | delim | fixed | varlen (C08 only)
 	Width  int    `json:"width,omitempty"`
 	Little bool   `json:"little,omitempty"`
 	Off    int    `json:"off,omitempty"`
@@ -74,6 +74,10 @@ func (c Codec) Build() (dec netty.InboundHandler, enc netty.OutboundHandler) {
 	case "fixed":
 		cc := frame.FixedLengthCodec(c.Fixed)
 		return cc, cc
+	case "varlen":
+		// "maximum received length" decoder: one frame per transport read, at most Max bytes (no encoder side)
+		cc := frame.VariableLengthCodec(c.Max)
+		return cc, nil
 	}
 	panic("unknown codec kind " + c.Kind)
 }
